@@ -27,6 +27,7 @@ type Obligation struct {
 	TimeS   float64
 	Model   map[string]string
 	Raw     string
+	replayed bool
 }
 
 func (o *Obligation) Name() string { return o.Fn + "#" + o.Kind + ":" + o.Label }
@@ -655,7 +656,7 @@ func (fc *FnCtx) loopWrites(li *loopInfo) (locals []*ssa.Alloc, arrs map[string]
 	lset := map[*ssa.Alloc]bool{}
 	for b := range li.blocks {
 		for _, in := range b.Instrs {
-			fr := fc.g.instrFrame(fc.fn, in)
+			fr := fc.g.closeDeps(fc.g.instrFrame(fc.fn, in))
 			if fr.top {
 				top = true
 			}
